@@ -239,7 +239,7 @@ func headerSpec(pp *lpath) []string {
 				if hi {
 					wantIdx = i + 8
 				}
-				if b[i].K != bsrc || !strings.Contains(b[i].Src, srcPrefix) || b[i].Idx != wantIdx {
+				if b[i].K != bsrc || !(b[i].Src == srcPrefix || (strings.HasSuffix(srcPrefix, "()") && strings.HasSuffix(b[i].Src, srcPrefix))) || b[i].Idx != wantIdx {
 					good = false
 				}
 			}
